@@ -13,7 +13,8 @@ RULE = (
     'loaded 4 times: at a base origin, shifted by a whole number of steps (1 step ... decades: origins 1971-2037, i.e. '
     'different binades of epoch/3600), and declared in two other fixed-offset zones (Etc/GMT+-N, Asia/Kolkata, '
     'Asia/Kathmandu, Africa/Lagos).  Each load goes through classify, set-zeta-grid, rise, recession; the full '
-    'logical dump of every table, with all epoch columns re-based on the first grid instant, must be identical '
+    'logical dump of every table, with all epoch columns re-based on the first grid instant, must be identical, the first '
+    'grid instant itself must move by exactly the shift (resp. the difference of the UTC offsets, own arithmetic) '
     '(classification tables exactly, curve tables to 1e-9 relative), as must the outcome (completed / refused) of '
     'every step.  Non-trivial: record containing >= 1 increment within 4 ulp of the threshold product, or >= 1 '
     'assembled curve; distinct by (record digest, shift).'
@@ -79,7 +80,7 @@ def gen_tie_record(rng):
 
 def relative_dump(connection):
     (t0,) = connection.execute('SELECT min(epoch) FROM grid_time').fetchone()
-    out = {}
+    out = {'origin': [(t0,)]}
     for table, cols in EPOCH_COLS.items():
         rows = connection.execute('SELECT * FROM {}'.format(table)).fetchall()
         rb = []
@@ -130,6 +131,8 @@ def compare(base, other):
     """Returns (table, detail) of the first difference or None; and max float diff"""
     worst = 0.0
     for table in base:
+        if table == 'origin':
+            continue
         a, b = base[table], other[table]
         floaty = table in FLOAT_TABLES or table.startswith('view:')
         if not floaty:
@@ -210,6 +213,14 @@ def check_case(ctx, rng, case):
             rec.violation('variant-load-fails', {'variant': label, 'what': what, 'exception': desc}, dict(case, variant=[label, what], base_t0=base_case['t0']), 'origin')
             return
         rec.hit('variants-compared')
+        # every epoch moves by exactly the shift / the difference of the UTC offsets
+        expected = data.local_epoch(variant['t0'], variant['tz']) - data.local_epoch(base_case['t0'], base_case['tz'])
+        observed = dump.pop('origin')[0][0] - base['origin'][0][0]
+        if observed != expected:
+            rec.violation('epochs-do-not-move-by-exactly-the-shift', {'variant': label, 'what': what, 'expected_shift_s': expected, 'observed_shift_s': observed},
+                          dict(case, variant=[label, what], base_t0=base_case['t0']), 'origin')
+            return
+        rec.hit('absolute-shifts-checked')
         rec.hit({'shift': 'shift-variants', 'shift-years': 'shift-variants-across-years', 'zone': 'zone-variants'}[label])
         if out != base_out:
             rec.violation('step-outcome-depends-on-origin', {'variant': label, 'what': what, 'base': base_out, 'other': out},
